@@ -144,6 +144,12 @@ pub fn check_c07(case: &BuildCase, run: &BuildRun) -> Option<Violation> {
             }
         }
     }
+    if case.plan.fault_write.is_some() && run.sink.first_fault_event.is_some() {
+        // a hard fault was injected on purpose: only the counter invariant
+        // (checked above, after every call including the failed one) is
+        // judged; the rest is C11's business
+        return None;
+    }
     if let Some((i, r)) =
         run.results.iter().enumerate().find(|(_, r)| !r.is_ok())
     {
